@@ -57,7 +57,11 @@ def classify_msg(msg):
     return None, False
 
 
+CUR_PID = None
+
+
 def run_verus(path, log_prefix):
+    OUT = os.path.dirname(path)
     cmd = [VERUS, path] + VERUS_FLAGS + ["--output-json", "--time-expanded", "--error-format=json"]
     t0 = time.time()
     try:
@@ -104,6 +108,8 @@ def clause_text(line):
 
 def analyse_unit(unit):
     """returns dict(status, failures[], canary_ok, metas, stats, ...)"""
+    OUT = os.path.join(globals()["OUT"], CUR_PID or "_")
+    os.makedirs(OUT, exist_ok=True)
     tmpl = os.path.join(ROOT, "units", unit + ".vu")
     res = {"unit": unit, "status": "ok", "failures": [], "undecided": [], "trusted": [],
            "metas": [], "functions": {}, "wall": 0.0}
@@ -169,7 +175,7 @@ def analyse_unit(unit):
             # failure inside spec library / lemma / prelude: proof problem, not a code problem
             first = spans[0] if spans else {}
             res["undecided"].append(
-                f"proof failure outside extracted code: {msg[:200]} at out/{unit}.rs:{first.get('line_start')}")
+                f"proof failure outside extracted code: {msg[:200]} at out/{CUR_PID}/{unit}.rs:{first.get('line_start')}")
             continue
         if canary:
             canary_failed.add(loc_item)
@@ -285,6 +291,8 @@ def main():
         return 2
     if a.replay:
         return do_replay(a.property, a.replay)
+    global CUR_PID
+    CUR_PID = a.property
     spec = props[a.property]
     units = spec["units"]  # {unit: [fn filter] or "*"}
     with cf.ThreadPoolExecutor(max_workers=min(8, len(units))) as ex:
